@@ -146,6 +146,7 @@ def discharge(ob, timeout_ms=20000, second_backend=True):
                     ob.model = {name: cand.get(str(e), None) if isinstance(e, z3.ExprRef) and z3.is_const(e) else None for name, e in ob.replay["vars"].items()}
                 except Exception:  # noqa: BLE001
                     ob.model = None
+    validate_refutation(ob)
     ob.ms = (time.time() - t0) * 1000
     return ob
 
@@ -307,9 +308,12 @@ def _beval0(e, env, margin):
     return _truth(_feval(e, env), margin, None)
 
 
-def falsify_by_sampling(ob, n=400, seed=0):
-    """returns a dict model (name -> value) of a sampled counter-model candidate, or None"""
+def falsify_by_sampling(ob, n=400, seed=0, stats=None):
+    """returns a dict model (name -> value) of a sampled counter-model candidate, or None.
+    stats (optional dict) receives: evaluable (bool), hyp_sat (number of sampled points at which every hypothesis held)"""
     import random
+    if stats is not None:
+        stats.update(evaluable=False, hyp_sat=0)
     if not isinstance(ob.goal, z3.ExprRef) or ob.expect != "valid":
         return None
     try:
@@ -354,11 +358,74 @@ def falsify_by_sampling(ob, n=400, seed=0):
         try:
             if not all(_beval(h, env, 1e-9) is True for h in asserts):
                 continue
-            if _beval(ob.goal, env, 1e-6) is False:
+            verdict = _beval(ob.goal, env, 1e-6)
+            if stats is not None:
+                stats["evaluable"] = True
+                if verdict is True:
+                    stats["hyp_sat"] += 1
+            if verdict is False:
                 return named
         except (_NoEval, ZeroDivisionError, OverflowError, ValueError, TypeError):
+            if stats is not None:
+                stats["evaluable"] = False
             return None
     return None
+
+
+T2_SYMBOLS = ("r_exp", "r_log", "r_tanh", "r_arctanh", "r_sqrt")
+
+
+def _mentions_t2(ob):
+    seen, found = set(), [False]
+
+    def walk(e):
+        if found[0] or e.get_id() in seen:
+            return
+        seen.add(e.get_id())
+        if z3.is_quantifier(e):
+            walk(e.body())
+            return
+        if z3.is_app(e):
+            if e.decl().kind() == z3.Z3_OP_UNINTERPRETED and e.decl().name() in T2_SYMBOLS:
+                found[0] = True
+                return
+            for c in e.children():
+                walk(c)
+
+    for f in list(ob.hyps) + [ob.goal]:
+        if isinstance(f, z3.ExprRef):
+            walk(f)
+    return found[0]
+
+
+def validate_refutation(ob):
+    """A `sat` answer for an obligation over UNINTERPRETED transcendental symbols (exp, log, tanh, ... with ground axiom instances
+    only) is a counter-model of the axioms, not necessarily of the real functions.  The obligation is therefore evaluated with the
+    real functions at sampled points: a point where every hypothesis holds and the goal fails (by a margin) confirms the refutation
+    and becomes the reported counter-model; if the goal holds at every one of >= 40 sampled points that satisfy the hypotheses, the
+    solver's model is spurious and the obligation is UNDECIDED (the bounded stand-in decides), never a violation."""
+    if ob.status != "refuted" or ob.backend == "sampling" or ob.expect != "valid" or not isinstance(ob.goal, z3.ExprRef):
+        return
+    try:
+        if not _mentions_t2(ob):
+            return
+        st = {}
+        cand = falsify_by_sampling(ob, n=600, stats=st)
+    except Exception:  # noqa: BLE001
+        return
+    if cand is not None:
+        ob.backend = f"{ob.backend}+sampling"
+        ob.solver_output = (ob.solver_output or "") + "\ncounter-model confirmed with the real transcendental functions at the sampled point " + str(cand)[:800]
+        if ob.replay and "vars" in ob.replay:
+            try:
+                ob.model = {name: cand.get(str(e), None) if isinstance(e, z3.ExprRef) and z3.is_const(e) else None for name, e in ob.replay["vars"].items()}
+            except Exception:  # noqa: BLE001
+                pass
+        return
+    if st.get("evaluable") and st.get("hyp_sat", 0) >= 40:
+        ob.status = "unknown"
+        ob.solver_output = (f"solver answered sat, but its model interprets exp/log/tanh/... freely (only ground axiom instances are given): the goal holds with the real functions at all "
+                            f"{st['hyp_sat']} sampled points that satisfy the hypotheses -> spurious counter-model, obligation undecided\n") + (ob.solver_output or "")[:1500]
 
 
 _POOL_OBS = []
